@@ -146,6 +146,11 @@ void harness(void) {
 #else
   (void)verif_val(0);
   eval2(&n, 0);
+#ifndef DIVKIND
+  REACH("eval2 returns");
+#else
+  if (!divzero) REACH("eval2 returns");
+#endif
 #endif
 }
 VERIF_MAIN
